@@ -540,7 +540,10 @@ class Emitter:
                 raw = init[2:init.rindex('"')]
                 b, k = [], 0
                 while k < len(raw):
-                    if raw[k] == "\\":
+                    if raw[k] == "\\" and raw[k + 1:k + 2] == "\\":
+                        b.append(0x5c)
+                        k += 2
+                    elif raw[k] == "\\":
                         b.append(int(raw[k + 1:k + 3], 16))
                         k += 3
                     else:
